@@ -68,7 +68,7 @@ def own_dict(o):
     return 'dict(%s)' % ', '.join('%s=%s' % (p['n'], p['n']) for p in o if p['k'] not in ('var', 'vkw'))
 
 
-def render_stack(layers, base, kinds, fls, placement, reuse=False):
+def render_stack(layers, base, kinds, fls, placement, reuse=False, sigattr=False):
     """layers: outermost first, parameter lists WITHOUT the leading func parameter; kinds[k] in {'decorator', 'wrapper_decorator'};
     fls[k] = {'n', 'names'} how layer k calls the wrapped callable (decorator: n = 0, no names)"""
     L = ['import functools', 'from sigtools import wrappers, specifiers', '']
@@ -87,11 +87,16 @@ def render_stack(layers, base, kinds, fls, placement, reuse=False):
     selfp = [] if placement in ('function', 'static') else [dict(FUNC, n='self', k='po' if base and base[0]['k'] == 'po' else 'pok')]
     bparams = absig.render_params(selfp + list(base))
     decos = ['@d%d' % (1 if reuse else k) for k in range(1, n + 1)]      # reuse: the SAME wrapping function in every layer
+    if sigattr:
+        # the decorated function already carries an explicit __signature__ (as modifiers.annotate leaves one)
+        L += ['from sigtools import signatures', 'def with_sig(f):', '    f.__signature__ = signatures.signature(f)', '    return f', '']
+        decos = decos + ['@with_sig']
     if placement == 'function':
         L += decos + ['def w(%s):' % bparams, '    return locals()', '']
         L += ['def base_raw(%s):' % bparams, '    return locals()', '']
     else:
-        L += ['class K(object):']
+        # instances are FALSY: binding must not depend on the truth value of the instance
+        L += ['class K(object):', '    def __bool__(self):', '        return False', '    def __len__(self):', '        return 0']
         if placement == 'static':
             L += ['    @staticmethod']
         L += ['    ' + d for d in decos] + ['    def w(%s):' % bparams, '        return locals()', '']
@@ -134,13 +139,13 @@ def shapes(names, maxpos):
                 yield np_, list(kw)
 
 
-def stack_event(tid, layers, base, kinds, fls, placement, kwmax=3, reuse=False):
+def stack_event(tid, layers, base, kinds, fls, placement, kwmax=3, reuse=False, sigattr=False):
     import sigtools
     from sigtools import signatures, wrappers
-    src = render_stack(layers, base, kinds, fls, placement, reuse)
+    src = render_stack(layers, base, kinds, fls, placement, reuse, sigattr)
     g, fname = progs.compile_module(src)
     e = {'tid': tid, 'op': 'wrapstack', 'layers': layers, 'base': base, 'kinds': kinds, 'fls': fls, 'placement': placement,
-         'case': {'layers': layers, 'base': base, 'kinds': kinds, 'fls': fls, 'placement': placement, 'src': src, 'reuse': reuse}}
+         'case': {'layers': layers, 'base': base, 'kinds': kinds, 'fls': fls, 'placement': placement, 'src': src, 'reuse': reuse, 'sigattr': sigattr}}
     try:
         n = len(layers)
         inst = None
